@@ -578,7 +578,9 @@ class ValuesUnderIntervals(Harness):
         ifa.open = lambda fn, mode="r", *a, **k: fobj if str(fn) == fa and "b" in mode else real_open(fn, mode, *a, **k)
         try:
             ix = ifa.IndexedFasta(fa)
-            g = bnp.Genome.from_dict({r["name"]: r["rlen"] for r in rows})        # ignores the '_' contig by default
+            from bionumpy.genomic_data.genome_context import ignore_underscores
+            g = bnp.Genome.from_dict({r["name"]: r["rlen"] for r in rows}, filter_function=ignore_underscores)   # as Genome.from_file does
+            assert g._genome_context.encoding.get_labels() != [r["name"] for r in rows]
             gs = GenomicSequence.from_indexed_fasta(ix, g._genome_context)
             m = len(skel["ivs"])
             iv = StrandedInterval([C17.NAMES[c] for c in skel["ivs"]], ctx.arr([x[f"s{i}"] for i in range(m)], "int64"),
